@@ -577,7 +577,10 @@ def insert_closures(text, closures):
             # pattern key: every closure whose text (whitespace-insensitive) equals the pattern; none is fine
             for idx, f in enumerate(found):
                 txt = squash(ft.text[ft.toks[f[0]].start:ft.toks[f[3]].end])
-                if txt == squash(n):
+                params = squash(ft.text[ft.toks[f[0]].start:ft.toks[f[1]].end])
+                key = squash(n)
+                # `|a, b|` alone matches on the parameter list, anything else on the whole closure text
+                if (key.endswith('|') and key == params) or key == txt:
                     todo.append((idx, spec))
             continue
         if n >= len(found):
